@@ -363,14 +363,14 @@ def _on_alarm(signum, frame):
     raise CaseTimeout()
 
 
-def _impl_safe(chk, case):
+def _impl_safe(chk, case, factor=1):
     """Run chk.impl(case) under a wall-clock limit (a hanging implementation must
     not hang the check) and turn unexpected exceptions into a visible observation."""
     import signal
 
     import resource
 
-    limit = int(getattr(chk, "CASE_TIMEOUT", 30))
+    limit = int(getattr(chk, "CASE_TIMEOUT", 30)) * factor
     old = signal.signal(signal.SIGALRM, _on_alarm)
     signal.alarm(limit)
     soft, hard = resource.getrlimit(resource.RLIMIT_AS)
@@ -408,6 +408,7 @@ def run_check(chk: Check, tier="quick", seed=0, replay=None):
 
     # 1. obligations -------------------------------------------------------
     axioms = {}
+    leanchecker = None
     build_ok = True
     if chk.LEAN_MODULE:
         ok, log = lean_build(chk.LEAN_MODULE, chk.TRANSLATE)
@@ -418,6 +419,12 @@ def run_check(chk: Check, tier="quick", seed=0, replay=None):
             axioms, probs = lean_audit(chk.LEAN_MODULE, chk.THEOREMS)
             for p in probs:
                 problems.append({"kind": "obligation", "what": p})
+            if tier == "thorough" and not replay:
+                # independent re-check of the compiled proofs by Lean's external checker
+                rc, out, err = sh(["lake", "env", "leanchecker", chk.LEAN_MODULE], cwd=LEAN_DIR, timeout=3600)
+                leanchecker = {"exit": rc, "output": (out + err)[-500:]}
+                if rc != 0:
+                    problems.append({"kind": "obligation", "what": f"leanchecker rejected {chk.LEAN_MODULE}", "log": (out + err)[-2000:]})
     obligations = len(chk.THEOREMS)
     discharged = len([t for t in chk.THEOREMS if t in axioms and set(axioms[t]) <= ALLOWED_AXIOMS]) if build_ok else 0
 
@@ -430,6 +437,10 @@ def run_check(chk: Check, tier="quick", seed=0, replay=None):
         cases = chk.corpus() + list(chk.gen(rng.fork("gen"), n, tier))
     procs = chk.PROCS_QUICK if tier == "quick" else chk.PROCS_THOROUGH
     obs = parallel_map(lambda c: _impl_safe(chk, c), cases, procs)
+    # a time-out on a loaded machine is not a property failure: retry alone with a 6x limit
+    for i, o in enumerate(obs):
+        if isinstance(o, dict) and str(o.get("__crash__", "")).startswith("timeout"):
+            obs[i] = _impl_safe(chk, cases[i], factor=6)
 
     # 3. correspondence ------------------------------------------------------
     disagreements = []
@@ -587,6 +598,7 @@ def run_check(chk: Check, tier="quick", seed=0, replay=None):
             "known_findings_hit": {k: len(v) for k, v in known_hits.items()},
             "broken": [p["what"] for p in problems][:10],
             "repo": REPO,
+            "leanchecker": leanchecker,
         },
         "assumptions": list(chk.ASSUMPTIONS),
         "wall_s": round(time.time() - t0, 2),
@@ -597,6 +609,10 @@ def run_check(chk: Check, tier="quick", seed=0, replay=None):
             ev["coverage"].update(chk.extra_evidence(cases, obs, model_outs))
         except Exception as e:
             ev["coverage"]["extra_evidence_error"] = str(e)
+    cov = ev["coverage"]
+    if "exhaustive" in cov and not isinstance(cov["exhaustive"], bool):  # schema: boolean
+        cov["exhaustive_detail"] = cov["exhaustive"]
+        cov["exhaustive"] = False
     if not replay:
         write_json(os.path.join(VERIF, "evidence", f"{prop}.json"), ev)
     for l in lines:
